@@ -43,6 +43,11 @@ def obligations(tier, seed=0):
             obs.append(('checks.fam_elem:cwrap_bits', dict(fn=fn, prec=3, rnd='u', rexp=4, iexp=-6)))
     for prec, rnd in ((2, 'n'), (3, 'f'), (2, 'u')):
         obs.append(('checks.fam_elem:cwrap_bits', dict(fn='mpc_agm', prec=prec, rnd=rnd, two=True)))
+    # kernels of digamma and integer-order Bessel J run symbolically (their series loops for real, mpf_log stubbed): final rounding
+    for prec, rnd in ((3, 'n'), (4, 'f'), (2, 'u')):
+        obs.append(('checks.fam_elem:psi0_bits', dict(prec=prec, rnd=rnd)))
+        obs.append(('checks.fam_elem:besseljn_bits', dict(n=1, prec=prec, rnd=rnd)))
+        obs.append(('checks.fam_elem:besseljn_bits', dict(n=-1, prec=prec, rnd=rnd, bc=9, xexp=-60)))
     # _wrap_specfun: the closure around every @defun_wrapped special function hands back +retval (rounded to the context
     # precision) whatever the wrapped function returns at prec+10
     for name, kind in (('acot', 'mpf'), ('sec', 'mpc'), ('_erf_complex', 'mpc'), ('csch', 'mpf'), ('acsc', 'mpf')):
